@@ -96,6 +96,9 @@ HOME = {
 FORCED_ABSENT = {'ThisModelMetadataSection': {'Location'}, 'ThisDeviceMetadataSection': {'Location'},
                  'RelationshipMetadataSection': {'Location'}}
 FORCED_PRESENT = {'LocationMetadataSection': {'Location'}}
+# the dialect URI identifies the section class itself (mex_types.dialect_lookup); another URI is another class, not another value
+FORCED_KEEP = {'ThisModelMetadataSection': {'Dialect'}, 'ThisDeviceMetadataSection': {'Dialect'},
+               'RelationshipMetadataSection': {'Dialect'}, 'LocationMetadataSection': {'Dialect'}}
 
 CORNER_STRINGS = ('', ' ', 'a', 'A b', '  lead', 'trail  ', 'x\ty', 'line1\nline2', 'cr\rlf', '&amp;', '<tag/>', '"quoted"', "it's",
                   ']]>', 'ü中Ж', '\U0001F600', 'á', ' x', 'x' * 300, '&<>"\'', '\U00010000\U0010FFFD', '0', 'None')
@@ -318,6 +321,8 @@ class Gen:
             self._assign(obj, cls, name, prop, value)
             return
         has_default = getattr(prop, '_default_py_value', None) is not None
+        if name in FORCED_KEEP.get(cls.__name__, ()):
+            return
         if name in FORCED_ABSENT.get(cls.__name__, ()):
             self._assign(obj, cls, name, prop, None)
             return
@@ -579,8 +584,9 @@ class Gen:
 
     def qname(self):
         rng = self.rng
+        from sdc11073.xml_utils import QName   # the library's own QName type (what its readers produce): copyable
         ns = rng.choice((PM, MSG, FOREIGN_NS, 'http://example.org/q?x=1'))
-        return etree.QName(ns, 'n' + ''.join(rng.choice('abcXYZ019_-.') for _ in range(rng.randrange(0, 8))))
+        return QName(ns, 'n' + ''.join(rng.choice('abcXYZ019_-.') for _ in range(rng.randrange(0, 8))))
 
     def foreign_element(self, depth: int = 0, retrievability: bool = False):
         rng = self.rng
